@@ -65,4 +65,18 @@ def expectColumn (h : List (Ev V)) (c : Nat) (ty : DType) (offset count : Nat) :
   let cols := schemaOf h
   (List.range count).map fun i => convert conv (typeAt cols c) ty (lastCell zero conv cols h (offset + i) c)
 
+/-- column index of a reference according to a schema -/
+def resolveRef (cols : List Col) : Ref → Option Nat
+  | .idx i => if i < cols.length then some i else none
+  | .name n => let i := cols.findIdx (fun c => c.name == n); if i < cols.length then some i else none
+
+/-- … of a Cell: a Cell whose name is empty is addressed by its index (0 when it was made from a name) -/
+def resolveCellRef (cols : List Col) : Ref → Option Nat
+  | .name n => if n.isEmpty then resolveRef cols (.idx 0) else resolveRef cols (.name n)
+  | r => resolveRef cols r
+
+/-- the cells of a write call as (column index, value) pairs -/
+def resolvedCells (cols : List Col) (cells : List (Ref × Variant V)) : List (Nat × Variant V) :=
+  cells.filterMap fun c => (resolveCellRef cols c.1).map fun i => (i, c.2)
+
 end Nix.C15
